@@ -178,8 +178,8 @@ Proof.
       injection H as <-. destruct (IH m ls0 Hm Er) as (Ha & Hb & Hc). simpl.
       destruct Hm as (L1 & L2 & I1 & I2).
       rewrite (remap_roundtrip n (l2p m) (p2l m) o I2 E1). rewrite Ha, E2, Hb. auto.
-    + destruct (Nat.ltb a n && Nat.ltb b n && on_edge g d a b) eqn:E; [|discriminate].
-      apply andb_true_iff in E as [E E3]. apply andb_true_iff in E as [E1 E2].
+    + destruct (Nat.ltb a n && Nat.ltb b n && negb (Nat.eqb a b) && on_edge g d a b) eqn:E; [|discriminate].
+      apply andb_true_iff in E as [E E3]. apply andb_true_iff in E as [E Eab]. apply andb_true_iff in E as [E1 E2].
       apply Nat.ltb_lt in E1. apply Nat.ltb_lt in E2.
       destruct (replay n g d (apply_swap m (nth a (p2l m) 0) (nth b (p2l m) 0)) routed) as [ls0|] eqn:Er; [|discriminate].
       injection H as <-.
